@@ -109,6 +109,11 @@ mod tests;
 mod path_builder;
 pub use path_builder::*;
 
+#[cfg(raqote_verif)]
+pub mod verif;
+#[cfg(raqote_verif)]
+pub use crate::dash::dash_path as verif_dash_path;
+
 pub use crate::draw_target::{AntialiasMode, FilterMode};
 pub use crate::draw_target::{BlendMode, DrawOptions, DrawTarget, SolidSource, Source, Winding, ExtendMode, Mask};
 pub use crate::stroke::*;
